@@ -107,7 +107,7 @@ Theorem C10_not_via_cpi : forall (BW PF : Type) (R : env BW PF) (w : world BW PF
   (forall K ixes cur a r, is_ok (h_start R K ixes cur true w a r) = false) /\
   (forall K a s, is_ok (h_end R K true w a s) = false) /\
   (forall ixes cur a au e, is_ok (h_start_fl ixes cur true w a au e) = false) /\
-  (forall a au, is_ok (h_end_fl R true w a au) = false).
+  (forall a au nr, is_ok (h_end_fl R true w a au nr) = false).
 Proof. exact (@bracket_ops_not_in_cpi). Qed.
 
 (* ---- (5) what a third party can do, and the withdraw guard ---- *)
@@ -134,7 +134,7 @@ Theorem C10_receivership_blocks : forall (BW PF : Type) (R : env BW PF) (w : wor
   (forall s b m, is_ok (h_borrow R w a s b m) = false) /\
   (forall s b m, is_ok (h_deposit R w a s b m) = false) /\
   (forall ixes cur cpi au e, is_ok (h_start_fl ixes cur cpi w a au e) = false) /\
-  (forall cpi au, is_ok (h_end_fl R cpi w a au) = false).
+  (forall cpi au nr, is_ok (h_end_fl R cpi w a au nr) = false).
 Proof. exact (@receivership_blocks). Qed.
 
 (* the dispatcher and the introspection code agree on the discriminators *)
